@@ -529,9 +529,15 @@ Proof.
   destruct H as (H1 & H2 & H3 & H4).
   assert (Hk : forall k, k <= indent -> bnd (start + k)).
   { intros k Hk. eapply asc_bnd'; [exact H1|]. eapply asc_sub; [exact H2 | lia]. }
-  apply spec_bind_source_slice; [| |exact H4|intros v; step; reflexivity].
-  - destruct (is_line_start role); [destruct common|]; lia.
-  - destruct (is_line_start role); [destruct common|]; [apply Hk; lia | apply Hk; lia | exact H1].
+  cbv zeta.
+  match goal with |- context [Nat.eqb ?a end_] => set (start' := a) end.
+  assert (Hle : start' <= end_).
+  { unfold start'. destruct (is_line_start role); [destruct common|]; lia. }
+  assert (Hb : bnd start').
+  { unfold start'. destruct (is_line_start role); [destruct common|];
+      [apply Hk; lia | apply Hk; lia | exact H1]. }
+  destruct (Nat.eqb start' end_); [step; reflexivity|].
+  apply spec_bind_source_slice; [exact Hle | exact Hb | exact H4 | intros v; step; reflexivity].
 Qed.
 
 Lemma finish_elements_spec lnb common phs : forall i p E, Forall ph_ok phs ->
